@@ -46,6 +46,8 @@ class RealLife:
                 op = {"op": "update", "flags": gp.gen_flags(rng, tree), "delta": abs(gp.gen_clock_delta(rng)),
                       "vcs_flags": rng.choice([[], [], [], [], ["--no-tag-commit"], ["--no-push"], ["--no-commit"],
                                                ["--no-tag-commit", "--no-push"]])}
+                if rng.random() < 0.15 and "--no-commit" not in op["vcs_flags"]:
+                    op["dirty_unrelated"] = True      # the developer has unstaged work in an unrelated tracked file
                 ops.append(op)
                 if "--no-commit" in op["vcs_flags"] and rng.random() < 0.8:
                     ops.append({"op": "actor_commit_all"})
@@ -140,6 +142,13 @@ class RealLife:
                 argv = ["update", "--tag", "gamma"]
             elif fail == "contradiction":
                 argv = ["update", "--patch", "--no-commit", "--tag-commit"]
+            pending = None
+            if op.get("dirty_unrelated") and fail is None and not rg.status().strip():
+                with open(os.path.join(w.dir, "unrelated_notes.txt"), "ab") as fobj:
+                    fobj.write(("work in progress %d\n" % step).encode())
+                pending = " M unrelated_notes.txt"
+                argv.append("--allow-dirty")
+                ctx.probe("allow_dirty_with_unrelated_work")
             head0 = rg.head()
             tags0 = set(all_tags)
             status0 = rg.status()
@@ -165,7 +174,9 @@ class RealLife:
                                   "failed update changed %s: %s" % (
                                       "files" if res.changed else ("HEAD" if head1 != head0 else "tags"), detail))
                     break
-                if fail is None and not dirty_since_nocommit and not status0.strip():
+                if pending:
+                    rg.git("checkout", "--", "unrelated_notes.txt")
+                if fail is None and not dirty_since_nocommit and (not status0.strip() or pending):
                     exp = tc.expectation(ctx, tree, start_state, start_text, flags, clock, False)
                     if exp[0] == "ok" and exp[2] is not None and rp.accepts(tree, exp[2]) and pep440.cmp(exp[2], start_text) > 0 \
                             and exp[2] not in tags0 and not facts.get("week53"):
@@ -210,10 +221,19 @@ class RealLife:
                 if not files <= configured or w.syntax not in files:
                     ctx.violation("C08", "commit_content", facts, "bump commit contains %s, configured files are %s: %s" % (
                         sorted(files), sorted(configured), detail))
-                if rg.status().strip():
-                    ctx.violation("C08", "tree_dirty_after_commit", facts, "working tree not clean after the bump commit: %r" % rg.status())
+                left = rg.status().strip("\n")
+                if pending:
+                    if left != pending:
+                        ctx.violation("C08", "pending_work_swept_or_lost", facts,
+                                      "unstaged work in an unrelated file before the update, afterwards `git status` is %r (expected %r); commit holds %s" % (
+                                          left, pending, sorted(files)))
+                    rg.commit_all("actor: finish work %d" % step)
+                elif left:
+                    ctx.violation("C08", "tree_dirty_after_commit", facts, "working tree not clean after the bump commit: %r" % left)
             else:
                 dirty_since_nocommit = True
+                if pending:
+                    pass
                 if ncommits != 0 or tags1 != tags0:
                     ctx.violation("C08", "commit_without_commit_flag", facts, "--no-commit yet HEAD/tags moved: " + detail)
                     break
